@@ -70,15 +70,43 @@ func runC19(r *Run, p *Prog) {
 	if parser == nil || bind == nil || newConn == nil || len(listenFns) == 0 {
 		return
 	}
-	// the function(s) that call a listen function: listener setup
-	var setups []*ssa.Function
-	for _, lf := range listenFns {
-		for _, cs := range cg.Callers[lf] {
-			setups = appendFn(setups, cs.Fn)
+	// Bind and NewConnection are analysed in their inlined views (inline.go): whether the parsing, the stale-socket
+	// handling and the listen call are written in Bind or in helpers makes no difference to the rules below. The
+	// parser-specific rules (A2, the parser half of A4) still look at the parser function itself.
+	vb := p.Inlined(bind, nil)
+	cg.AddView(vb)
+	newConnBuilt := newConn
+	newConn = p.Inlined(newConn, nil)
+	cg.AddView(newConn)
+	bin := ""
+	for _, prm := range vb.Params {
+		if b, ok := prm.Type().Underlying().(*types.Basic); ok && b.Kind() == types.String {
+			bin = prm.Name()
 		}
 	}
-	scope := cg.Reach(append(append([]*ssa.Function{bind, newConn}, ro.Serving...), setups...), false)
-	r.Note("roles: parser=%s listen=%v setup=%v scope=%v", shortName(parser), fnNames(fnSet(listenFns)), fnNames(fnSet(setups)), fnNames(scope))
+	if bin == "" {
+		r.Unresolved("A4", "string parameter of Bind")
+		return
+	}
+	isListenCall := func(in ssa.Instruction) bool {
+		c, ok := in.(*ssa.Call)
+		if !ok {
+			return false
+		}
+		if n := calleeName(&c.Call); n == "net.ListenConfig.Listen" || n == "net.Listen" {
+			return true
+		}
+		t := staticTarget(&c.Call)
+		for _, lf := range listenFns {
+			if t == lf {
+				return true
+			}
+		}
+		return false
+	}
+	setups := []*ssa.Function{vb}
+	scope := cg.Reach(append([]*ssa.Function{bind, newConnBuilt}, ro.ServingOrig...), false)
+	r.Note("roles: parser=%s listen=%v scope=%v; Bind and NewConnection analysed in their inlined views", shortName(parser), fnNames(fnSet(listenFns)), fnNames(scope))
 
 	// ---- A1: error discipline
 	r.Guard("A1", func() {
@@ -118,39 +146,41 @@ func runC19(r *Run, p *Prog) {
 					"the error returned by "+funcFullName(t)+" is discarded: a failure is silently ignored and the caller continues with stale state")
 			}
 		}
-		// listener setup only under "parser returned nil"
+		// the listener is created only for a string the parser accepts: every path of Bind to the listen call has
+		// established the ':' prefix and crossed protocol == "unix" or protocol == "tcp"
+		vms := NewMemState(T, cg, vb, writes)
+		protoAlt := []string{strings.ReplaceAll(`before(param:$in,const:":")`, "$in", bin)}
 		n := 0
-		for _, cs := range callsIn(bind, false) {
-			t := staticTarget(cs.Common)
-			if t == nil {
-				continue
-			}
-			reachesListen := false
-			rs := cg.Reach([]*ssa.Function{t}, false)
-			for _, lf := range listenFns {
-				if rs[lf] {
-					reachesListen = true
+		for _, b := range vb.Blocks {
+			for _, in := range b.Instrs {
+				if !isListenCall(in) {
+					continue
 				}
-			}
-			if !reachesListen {
-				continue
-			}
-			n++
-			ok := false
-			var perr string
-			for _, pc := range callsIn(bind, false) {
-				if staticTarget(pc.Common) == parser {
-					perr = T.T(pc.Instr.(ssa.Value))
-					if hasFact(T.FactsAt(cs.Instr.Block()), "EQ", perr, "nil") {
-						ok = true
+				n++
+				lc := in
+				isLC := func(i ssa.Instruction) bool { return i == lc }
+				ok, w := mustCross(T, vb, nil, isLC, nil, func(fs []Fact) bool { return hasSepFact(fs, "param:"+bin, ":") })
+				r.Ob("A1", shortName(vb), "the listener is created only after the string was found to contain ':'", in.Pos(), ok,
+					"the listener is created for a string without '<protocol>:' prefix (or although the address parser reported an error): the service binds to whatever the fields held before", witnessPos(p, w)...)
+				reach, w2 := reachInstr(vb, nil, isLC, nil, func(x, y *ssa.BasicBlock) bool {
+					for _, f := range T.edgeFactsOn(x, y) {
+						if f.Op != "EQ" {
+							continue
+						}
+						for _, k := range []string{`const:"unix"`, `const:"tcp"`} {
+							if (f.A == k && isValueOf(vms, vb, f.B, x, protoAlt)) || (f.B == k && isValueOf(vms, vb, f.A, x, protoAlt)) {
+								return true
+							}
+						}
 					}
-				}
+					return false
+				})
+				r.Ob("A1", shortName(vb), "the listener is created only for protocol unix or tcp", in.Pos(), !reach,
+					"the listen call can be reached without the protocol having been found to be unix or tcp (e.g. although the address parser reported an error)", witnessPos(p, w2)...)
 			}
-			r.Ob("A1", shortName(bind), "listener setup "+funcFullName(t)+" runs only if the address parser returned nil", cs.Instr.Pos(), ok,
-				"the listener is created although the address parser may have reported an error: the service binds to whatever the fields held before ("+strip(perr)+" not known to be nil here)")
 		}
 		if n == 0 {
-			r.Unresolved("A1", "call from Bind that reaches listener creation")
+			r.Unresolved("A1", "listen call on the bind path")
 		}
 		r.Floor("A1", 2)
 	})
@@ -277,51 +307,32 @@ func runC19(r *Run, p *Prog) {
 			return hasSepFact(fs, "param:"+cin, ":")
 		})
 		r.Ob("A4", shortName(newConn), "client dials only after establishing that the string contains ':'", dial.Pos(), ok, "the client can reach the dial without having established that the string has a '<protocol>:' prefix", witnessPos(p, w)...)
-		// handed unchanged to listen()
+		// what reaches the listen call is what the parser accepted: network = text before the first ':', address = the
+		// (cut) rest - evaluated in Bind's inlined view, so any write between parsing and listening shows up here
 		for _, su := range setups {
 			sms := NewMemState(T, cg, su, writes)
-			for _, cs := range callsIn(su, false) {
-				t := staticTarget(cs.Common)
-				isL := false
-				for _, lf := range listenFns {
-					if t == lf {
-						isL = true
+			for _, b := range su.Blocks {
+				for _, in := range b.Instrs {
+					if !isListenCall(in) {
+						continue
 					}
+					a := in.(*ssa.Call).Call.Args
+					var gp, ga []string
+					for _, x := range sms.ValueAlts(a[len(a)-2], 0) {
+						gp = append(gp, normParam(x, bin))
+					}
+					for _, x := range sms.ValueAlts(a[len(a)-1], 0) {
+						ga = append(ga, normParam(x, bin))
+					}
+					sort.Strings(ga)
+					sa := final[strings.TrimPrefix(locAddr, "&param:"+recv+".")]
+					r.Ob("A4", shortName(su), "the listener is created for the parsed protocol and address", in.Pos(),
+						len(gp) == 1 && gp[0] == protoT && okAddr && strings.Join(ga, "|") == strings.Join(sa, "|"),
+						fmt.Sprintf("listen is called with network %v and address %v, expected %s and %v (what the address parser accepted)", gp, ga, protoT, sa))
 				}
-				if !isL {
-					continue
-				}
-				a := cs.Common.Args
-				gp := sms.ValueAlts(a[len(a)-2], 0)
-				ga := sms.ValueAlts(a[len(a)-1], 0)
-				srecv := su.Params[0].Name()
-				wp := "entry:" + strings.Replace(locProto, "param:"+recv, "param:"+srecv, 1)
-				wa := "entry:" + strings.Replace(locAddr, "param:"+recv, "param:"+srecv, 1)
-				r.Ob("A4", shortName(su), "parsed protocol/address handed unchanged to "+funcFullName(t), cs.Instr.Pos(),
-					len(gp) == 1 && gp[0] == wp && len(ga) == 1 && ga[0] == wa,
-					fmt.Sprintf("listen is called with network %v and address %v, expected the parsed fields %s and %s unchanged", gp, ga, wp, wa))
 			}
 		}
-		// nothing between parser and setup in Bind rewrites the fields
-		for _, cs := range callsIn(bind, false) {
-			t := staticTarget(cs.Common)
-			if t == nil || t == parser || !p.InRepo(t) {
-				continue
-			}
-			isSetup := false
-			for _, su := range setups {
-				if t == su {
-					isSetup = true
-				}
-			}
-			if isSetup {
-				continue
-			}
-			w := writes[t]
-			bad := w["Service."+strings.TrimPrefix(locProto, "&param:"+recv+".")] || w["Service."+strings.TrimPrefix(locAddr, "&param:"+recv+".")]
-			r.Ob("A4", shortName(bind), "call "+funcFullName(t)+" does not rewrite the parsed endpoint", cs.Instr.Pos(), !bad, "a call in Bind other than the parser writes the protocol/address fields")
-		}
-		r.Floor("A4", 4)
+		r.Floor("A4", 3)
 	})
 
 	r.Guard("A2", func() {
@@ -434,14 +445,16 @@ func runC19(r *Run, p *Prog) {
 	r.Guard("A5", func() {
 		for _, su := range setups {
 			sms := NewMemState(T, cg, su, writes)
-			srecv := su.Params[0].Name()
-			lp := strings.Replace(locProto, "param:"+recv, "param:"+srecv, 1)
-			la := strings.Replace(locAddr, "param:"+recv, "param:"+srecv, 1)
+			pAlts := []string{strings.ReplaceAll(protoT, "$in", bin)}
+			var aAlts []string
+			for _, a := range final[strings.TrimPrefix(locAddr, "&param:"+recv+".")] {
+				aAlts = append(aAlts, strings.ReplaceAll(a, "$in", bin))
+			}
 			isP := func(term string, at *ssa.BasicBlock) bool {
-				return isValueOf(sms, su, term, at, []string{"entry:" + lp})
+				return isValueOf(sms, su, term, at, pAlts)
 			}
 			isA := func(term string, at *ssa.BasicBlock) bool {
-				return isValueOf(sms, su, term, at, []string{"entry:" + la})
+				return isValueOf(sms, su, term, at, aAlts)
 			}
 			unixFact := func(fs []Fact, at *ssa.BasicBlock, pol bool) bool {
 				for _, f := range fs {
@@ -472,10 +485,8 @@ func runC19(r *Run, p *Prog) {
 			}
 			var listenCall ssa.Instruction
 			for _, cs := range callsIn(su, false) {
-				for _, lf := range listenFns {
-					if staticTarget(cs.Common) == lf {
-						listenCall = cs.Instr
-					}
+				if isListenCall(cs.Instr) {
+					listenCall = cs.Instr
 				}
 			}
 			if listenCall == nil {
@@ -574,11 +585,23 @@ func runC19(r *Run, p *Prog) {
 	r.Guard("A6", func() {
 		idx := fieldIndex(ro.ServiceT, "listener")
 		n := 0
+		// stores of a listener on the bind path: in Bind's inlined view, and in scope functions that are not part of it
+		inBind := cg.Reach([]*ssa.Function{bind}, false)
+		var fas []*ssa.FieldAddr
 		for _, fa := range fieldAddrs(p, ro.ServiceT, idx) {
-			f := fa.Parent()
-			if !scope[f] {
-				continue
+			if f := fa.Parent(); scope[f] && !inBind[f] {
+				fas = append(fas, fa)
 			}
+		}
+		for _, b := range vb.Blocks {
+			for _, in := range b.Instrs {
+				if fa, ok := in.(*ssa.FieldAddr); ok && fa.Field == idx && isNamed(fa.X.Type(), pkgVarlink, "Service") {
+					fas = append(fas, fa)
+				}
+			}
+		}
+		for _, fa := range fas {
+			f := fa.Parent()
 			for _, st := range storesTo(fa) {
 				if c, ok := st.Val.(*ssa.Const); ok && c.IsNil() {
 					continue
@@ -589,13 +612,7 @@ func runC19(r *Run, p *Prog) {
 				bad := false
 				var wit []ssa.Instruction
 				for _, cs := range callsIn(f, false) {
-					isL := false
-					for _, lf := range listenFns {
-						if staticTarget(cs.Common) == lf {
-							isL = true
-						}
-					}
-					if !isL {
+					if !isListenCall(cs.Instr) {
 						continue
 					}
 					v := cs.Instr.(ssa.Value)
@@ -620,14 +637,18 @@ func runC19(r *Run, p *Prog) {
 			r.Unresolved("A6", "store of a new listener into Service.listener on the bind path")
 		}
 		// Bind refuses before parsing only on `running`
+		// the point where Bind starts looking at the address: the first split of its string parameter at ':'
+		bind := vb
 		var pcall ssa.Instruction
-		for _, cs := range callsIn(bind, false) {
-			if staticTarget(cs.Common) == parser {
-				pcall = cs.Instr
+		for _, cs := range callsNamed(bind, false, "strings.SplitN", "strings.Split", "strings.Cut", "strings.Index", "strings.IndexByte") {
+			if len(cs.Common.Args) >= 2 && strip(T.T(cs.Common.Args[0])) == "param:"+bin && (T.T(cs.Common.Args[1]) == `const:":"` || T.T(cs.Common.Args[1]) == "const:58") {
+				if pcall == nil {
+					pcall = cs.Instr
+				}
 			}
 		}
 		if pcall == nil {
-			r.Unresolved("A6", "call of the address parser in Bind")
+			r.Unresolved("A6", "the split of Bind's address argument at ':'")
 			return
 		}
 		getters := runningGetters(p, ro)
